@@ -122,6 +122,7 @@ func checkC09(c *vh.Ctx) {
 	c.Res.Extra["whole_runs"] = k
 	c.Res.Extra["whole_run_seconds"] = time.Since(t0).Seconds()
 	c09KernelStage(c, corr)
+	vernSrcImpStage(c, c.N(1500, 20000)) // the translated source of vern against the compiled function (srcimp_vern.go)
 	c09DayStage(c) // radia / N-content functions / growth / N uptake of the day (c09_day.go)
 	c09Correspond(c, corr)
 }
